@@ -59,6 +59,12 @@ Theorem C17_img_equiv : forall (c : cell) (src : str),
 Proof. exact img_equiv. Qed.
 Print Assumptions C17_img_equiv.
 
+(* exactly the attributes that are options of the directives are turned into option lines *)
+Theorem C17_option_keys :
+  option_keys_image = spec_image_keys /\ option_keys_admonition = spec_admonition_keys.
+Proof. exact keys_spec. Qed.
+Print Assumptions C17_option_keys.
+
 (* the same for any list of simple keys (covers the class / name options of an admonition) *)
 Theorem C17_option_values_carried : forall (kvs : attrs),
   Forall (fun kv => wf_key (fst kv) = true) kvs ->
